@@ -169,3 +169,69 @@ def _(self: Obj(CmdLoad, _header=HDR(tag=Const(EnumCmdTag.LOAD.tag), zero_fillin
     ensures(result[0] == rom_checksum(result), label="rom-checksum-holds")
     modifies(self.data, self._header.count, self._header.data)
     sample_with(lambda rnd: {"self": CmdLoad(rnd.getrandbits(32), bytes(rnd.getrandbits(8) for _ in range(rnd.choice([0, 1, 15, 16, 17, 100]))), zero_filling=True)})
+
+
+# ----------------------------------------------------------------------------------------------------------------------
+# Boot section: what the ROM decrypts and authenticates, block by block
+# ----------------------------------------------------------------------------------------------------------------------
+# ROM model of one section that starts at AES-CTR counter c0: the 16-byte block at file position k (counted from the section start) is
+# decrypted with counter c0 + k; block 0 is the section header whose `data` word says how many HMAC entries follow the header's own HMAC and
+# whose `count` word says how many 16-byte command blocks there are; HMAC entry 0 authenticates the encrypted header, entry i (1..H) the
+# i-th slice of the encrypted command blocks ((count // H) blocks each, the last one the rest).  Commands are abstract here (their own
+# encodings are under contract above): a command is the bytes it exports.
+from spsdk.crypto.symmetric import Counter  # noqa: E402
+from spsdk.sbfile.sb2.sections import BootSectionV2  # noqa: E402
+from spsdk.utils.misc import Endianness  # noqa: E402
+from specs.crypto import AES_CTR, HMAC  # noqa: E402
+from specs.sb2 import AbsSb2Cmd  # noqa: E402
+
+inline("spsdk.sbfile.sb2.sections:BootSectionV2.hmac_count", "specs.sb2:AbsSb2Cmd.export", "specs.sb2:AbsSb2Cmd.raw_size")
+
+
+ABS_CMD = Union[Obj(AbsSb2Cmd, _bytes=Bytes(16)), Obj(AbsSb2Cmd, _bytes=Bytes(32))]
+
+
+def SECTION(k, hmac_count):
+    return Obj(BootSectionV2, _header=HDR(tag=Const(EnumCmdTag.TAG.tag)), _commands=ListOf(ABS_CMD, k), _hmac_count=Const(hmac_count))
+
+
+def cmd_stream(section):
+    out = b""
+    for c in section._commands:
+        out = out + c.export()
+    return out
+
+
+def rom_sees_header(hdr, flags, address, count, data):
+    return hdr[0] == rom_checksum(hdr) and rom_header_fields(hdr)[1:] == (EnumCmdTag.TAG.tag, flags, address, count, data)
+
+
+def _mk_section(rnd):
+    cmds = [rnd.choice([CmdNop(), CmdErase(rnd.getrandbits(20), 0x100), CmdLoad(0x1000, bytes(rnd.getrandbits(8) for _ in range(rnd.choice([4, 16]))))])
+            for _ in range(rnd.randrange(1, 3))]
+    return BootSectionV2(rnd.getrandbits(16), *cmds, hmac_count=rnd.choice([1, 2, 4]))
+
+
+@contract("spsdk.sbfile.sb2.sections:BootSectionV2.export", replay=False)
+def _(self: Union[SECTION(1, 1), SECTION(2, 1), SECTION(1, 2), SECTION(2, 2), SECTION(2, 4)], dek: Union[Bytes(16), Bytes(32)], mac: Bytes(32),
+      counter: Obj(Counter, _nonce=Bytes(12), _ctr=Nat, _ctr_byteorder_encoding=Endianness)) -> bytes:
+    let(stream=cmd_stream(self), c0=counter._ctr, nonce=counter._nonce, order=counter._ctr_byteorder_encoding)
+    let(B=len(stream) // 16, H=self._hmac_count if len(stream) // 16 >= self._hmac_count else len(stream) // 16)
+    let(off=16 + 32 * (H + 1))
+    ensures(len(result) == off + 16 * B, label="header-hmac-table-command-blocks")
+    # block 0: the header, readable by the ROM with the counter of position 0; it announces H and B
+    ensures(rom_sees_header(AES_CTR(dek, nonce + (c0 % 4294967296).to_bytes(4, order.value), result[0:16]), old(self._header.flags), old(self._header.address), B, H),
+            label="decrypted-header-announces-hmac-count-and-block-count")
+    ensures(result[16:48] == HMAC("sha256", mac, result[0:16]), label="hmac-0-authenticates-the-encrypted-header")
+    # every command block is encrypted with the counter of its own position in the file
+    ensures(all(result[off + 16 * j: off + 16 * j + 16] ==
+                AES_CTR(dek, nonce + ((c0 + 1 + 2 * (H + 1) + j) % 4294967296).to_bytes(4, order.value), stream[16 * j: 16 * j + 16]) for j in range(B)),
+            label="command-block-j-uses-the-counter-of-its-file-position")
+    # the HMAC entries cover the encrypted command blocks completely, in H slices
+    let(bs=(B // H) * 16)
+    ensures(all(result[48 + 32 * i: 80 + 32 * i] == HMAC("sha256", mac, result[off + bs * i: (off + bs * (i + 1)) if i < H - 1 else len(result)]) for i in range(H)),
+            label="hmac-entries-cover-all-command-blocks")
+    ensures(counter._ctr == c0 + 1 + 2 * (H + 1) + B, label="counter-continues-at-the-next-file-position")
+    modifies(counter._ctr, self._header.data, self._header.count)
+    sample_with(lambda rnd: {"self": _mk_section(rnd), "dek": bytes(rnd.getrandbits(8) for _ in range(16)), "mac": bytes(rnd.getrandbits(8) for _ in range(32)),
+                             "counter": Counter(bytes(rnd.getrandbits(8) for _ in range(16)), ctr_value=rnd.choice([0, 5, 0xFFFFFFFE]))})
